@@ -134,6 +134,9 @@ def worker(case: Dict[str, Any]) -> CaseResult:
     if not scalars:
         return CaseResult("inconclusive", note="schema without custom scalars", stats={"no_custom_scalars": 1})
     variant_of = {n: VARIANTS[(case["idx"] + i) % len(VARIANTS)] for i, n in enumerate(scalars)}
+    if len(scalars) >= 2 and case["idx"] % 7 == 3:
+        # several GraphQL scalars sharing one Python type, each with its own functions
+        variant_of = {n: "serialize_str" for n in scalars}
     if uploads and case["idx"] % 8 == 2:
         # pydantic-native values next to files: the multipart route has to serialise them like the JSON route does
         variant_of = {n: "native_datetime" for n in scalars}
